@@ -20,6 +20,18 @@ CHECKS = {
     "C10": ("All real-valued strictly increasing arrays (<= 6 / 8 elements) and sorted query lists (<= 4 / 5): the index "
             "returned by each of the three scans and the dispatcher satisfies the declarative definition on every "
             "path.", "1 C10"),
+    "C04": ("All six strategies + user sampling functions: x and y symbolic; result types, length (m-1)n+1, every n-th "
+            "abscissa the identical term as the input, equal positive gaps, no feasible non-finite path; any real "
+            "n < 2 raises ValueError.", "1 C04"),
+    "C05": ("Four window strategies with symbolic averages (all tie patterns are explored paths) and symbolic or "
+            "lattice x: no overshoot, plateau with at most a-1 off-plateau samples at the borders, monotone "
+            "transitions; constant in -> constant out; piecewise-constant exact; spline stub hit at the knots.", "1 C05"),
+    "C06": ("funfit closed forms for rational and symbolic exponents on fully symbolic arguments; window strategies "
+            "sample-by-sample against an independent oracle of the documented geometry; adaptive window ordering, "
+            "range and tie cases.", "1 C06"),
+    "C07": ("Two to four executions of the real strategy in one symbolic run with the map parameters / changed average "
+            "/ second series as solver variables: affine commutation in values and time, locality, additivity, "
+            "weights summing to one and non-negative.", "1 C07"),
 }
 
 NA_REASON = "harness not built yet (work in progress, see DESIGN.md section 1)"
